@@ -34,7 +34,7 @@ ALG_OPTS = {"main": False, "mex": False, "with_header": True, "with_mem": True}
 
 
 def shipped():
-    """[(generator id, [(lean namespace, {fname: Function}, c file)], generate(dest, **opts), accepted options)]"""
+    """[(generator id, [(lean namespace, {fname: Function}, c file)], generate(dest, _eqs=None, **opts), accepted options, the equation-set object handed to the generator)]"""
     import cyecca.codegen as cg
     import cyecca.estimate.attitude.algorithms as alg
     import cyecca.models.rdd2 as rdd2
@@ -45,27 +45,40 @@ def shipped():
     E = alg.eqs()
     # both estimator generators are called the way the repository calls them: ONE call with the whole {set: functions} dict
     S.append(("estimator", [("est_mrp", E["mrp"], "casadi_mrp.c"), ("est_sim", E["sim"], "casadi_sim.c")],
-              (lambda dest, **kw: alg.generate_code(E, dest, **kw)), ALG_OPTS))
+              (lambda dest, _eqs=None, **kw: alg.generate_code(_eqs or E, dest, **kw)), ALG_OPTS, E))
     S.append(("codegen", [("cg_mrp", E["mrp"], "mrp.c"), ("cg_sim", E["sim"], "sim.c")],
-              (lambda dest, **kw: cg.generate_code(E, dest, **kw)), GENERIC_OPTS))
+              (lambda dest, _eqs=None, **kw: cg.generate_code(_eqs or E, dest, **kw)), GENERIC_OPTS, E))
     eq = {}
     for d in (rdd2.derive_attitude_rate_control, rdd2.derive_attitude_control, rdd2.derive_position_control, rdd2.derive_input_acro,
               rdd2.derive_input_auto_level, rdd2.derive_input_velocity, rdd2.derive_strapdown_ins_propagation,
               rdd2.derive_control_allocation, rdd2.derive_common):
         eq.update(d())
-    S.append(("rdd2", [("rdd2", eq, "rdd2.c")], (lambda dest, **kw: rdd2.generate_code(eq, filename="rdd2.c", dest_dir=dest, **kw)), GENERIC_OPTS))
+    S.append(("rdd2", [("rdd2", eq, "rdd2.c")], (lambda dest, _eqs=None, **kw: rdd2.generate_code(_eqs or eq, filename="rdd2.c", dest_dir=dest, **kw)), GENERIC_OPTS, eq))
     eq2 = {}
     for d in (ll.derive_so3_attitude_control, ll.derive_outerloop_control, ll.derive_se23_error):
         eq2.update(d())
     S.append(("rdd2_loglinear", [("loglinear", eq2, "rdd2_loglinear.c")],
-              (lambda dest, **kw: ll.generate_code(eq2, filename="rdd2_loglinear.c", dest_dir=dest, **kw)), GENERIC_OPTS))
+              (lambda dest, _eqs=None, **kw: ll.generate_code(_eqs or eq2, filename="rdd2_loglinear.c", dest_dir=dest, **kw)), GENERIC_OPTS, eq2))
     eq3 = {}
     for d in (bz.derive_bezier7, bz.derive_bezier3, bz.derive_dcm_to_quat, bz.derive_ref, bz.derive_multirotor):
         eq3.update(d())
-    S.append(("bezier", [("bezier", eq3, "bezier.c")], (lambda dest, **kw: bz.generate_code(eq3, filename="bezier.c", dest_dir=dest, **kw)), GENERIC_OPTS))
+    S.append(("bezier", [("bezier", eq3, "bezier.c")], (lambda dest, _eqs=None, **kw: bz.generate_code(_eqs or eq3, filename="bezier.c", dest_dir=dest, **kw)), GENERIC_OPTS, eq3))
     eq4 = dict(mr.derive_mr_ref_traj())
-    S.append(("mr_ref_traj", [("mr_ref", eq4, "mr_ref_traj.c")], (lambda dest, **kw: cg.generate_code({"mr_ref_traj": eq4}, dest, **kw)), GENERIC_OPTS))
+    S.append(("mr_ref_traj", [("mr_ref", eq4, "mr_ref_traj.c")], (lambda dest, _eqs=None, **kw: cg.generate_code({"mr_ref_traj": _eqs or eq4}, dest, **kw)), GENERIC_OPTS, eq4))
     return S
+
+
+def decoy(f):
+    """a function with the SAME name and signature as `f` but a different body (every output doubled plus one)"""
+    import casadi as ca
+    ins = [ca.SX.sym(f.name_in(i), f.sparsity_in(i)) for i in range(f.n_in())]
+    outs = f.call(ins)
+    return ca.Function(f.name(), ins, [2 * o + 1 for o in outs], [f.name_in(i) for i in range(f.n_in())], [f.name_out(i) for i in range(f.n_out())])
+
+
+def decoy_set(eqs):
+    """decoys for {name: Function} or {set: {name: Function}}"""
+    return {k: (decoy_set(v) if isinstance(v, dict) else decoy(v)) for k, v in eqs.items()}
 
 
 def configs(opts, tier, seed=0):
